@@ -6,7 +6,7 @@ Answer:   `model=<ok | reject@i:<event>:<pc>>[ mon=<failed monitor>…] holds=<0
 `holds` is the conjunction of the property monitors below, which are evaluated on the raw event list only
 (counting Start/exit events, member ids, back-off markers) — they do not use the model.
 -/
-import KafkaVerif.Model.GroupDeadlines
+import KafkaVerif.Model.GroupCallDeadlines
 import KafkaVerif.Base.Proto
 import KafkaVerif.Model.GroupRun
 import Oracle.GroupWireOps
